@@ -264,6 +264,12 @@ class CExec:
                         continue
                     if init[0]['kind'] == 'InitListExpr':
                         fields = STRUCT_FIELDS.get(t.pointee)
+                        if fields is None and re.fullmatch(r'char \*\s*\[\d*\]', (d['type'].get('qualType') or '').replace('const ', '').strip()):
+                            # a table of string literals (keyword names): an opaque constant object, only ever handed to an API call
+                            s2 = s.fork()
+                            s2.vars[d['name']] = Ptr('opaque', ('strtable', d['name']))
+                            nxt.append(s2)
+                            continue
                         if fields is None:
                             raise Undecided(f'initialiser list for {t.pointee}')
                         s2 = s.fork()
@@ -625,6 +631,8 @@ class CExec:
                         raise Undecided(f'deref of {w}')
                 elif p.kind == 'localptr':
                     yield (s, ('lv', ('deref_local', p.where[1])))
+                elif p.kind == 'fieldref':  # *(&self->field), as Py_CLEAR expands
+                    yield (s, ('lv', ('field', p.where)))
                 else:
                     raise Undecided(f'deref of pointer kind {p.kind}')
             return
